@@ -27,6 +27,7 @@
 #include "exceptions.h"  // for Unrecognized
 #include "geometry.h"    // for Geometry
 #include "identify.h"	 // for DFS::identify_image
+#include "verif_hooks.h" // for BEEBTOOLS_VERIF_TRACE
 
 namespace
 {
@@ -132,6 +133,8 @@ namespace DFS
     const unsigned long pos = lba * DFS::SECTOR_BYTES;
     std::vector<byte> got = f_.read(pos, DFS::SECTOR_BYTES);
     assert(got.size() <= DFS::SECTOR_BYTES);
+    BEEBTOOLS_VERIF_TRACE("F %lu %lu\n", lba,
+			  static_cast<unsigned long>(got.size()));
     if (got.size() < DFS::SECTOR_BYTES)
       return std::nullopt;
     SectorBuffer buf;
